@@ -911,3 +911,23 @@ Proof.
   intros W G. apply safe_discipline_accepts; auto.
   revert G. apply guarded_mono. apply lock_is_safe.
 Qed.
+
+(* ------------------------------------------------------------------ whole operations executed
+   atomically, for cross-checks against the sequential model NQueueModel (C12) by computation *)
+Fixpoint drain (o : sop) (fuel : nat) (s : sys) : sys :=
+  match fuel with
+  | O => s
+  | S f => match snd (sstep s o) with OIdle => s | _ => drain o f (fst (sstep s o)) end
+  end.
+
+Definition atomic_op (fuel : nat) (s : sys) (o : NQueueModel.op) : sys :=
+  match o with
+  | QueueN i => drain StepP fuel (fst (sstep s (PushP KNotif i)))
+  | QueueI i => drain StepP fuel (fst (sstep s (PushP KInd i)))
+  | Dequeue => drain StepC fuel (fst (sstep s (PushC CDeq)))
+  | Confirm => drain StepC fuel (fst (sstep s (PushC CConf)))
+  | Clear => s
+  end.
+
+Definition atomic_run (fuel : nat) (sizes : list nat) (ops : list NQueueModel.op) : sys :=
+  fold_left (atomic_op fuel) ops (sinit sizes).
